@@ -1,5 +1,10 @@
-STREAMS = ["c19"]
-RULE = ("(a) random maps of integers (incl. int64 extremes) and strings (with ':', '#', non-ASCII, Unicode blanks inside, up to "
+import os
+import core
+
+STREAMS = ["c19", "c12"]
+NEEDS_BINARY = True
+HARNESS_ARGS = ("-rdpgw", os.path.join(core.BUILD, "rdpgw"))
+RULE = ("(the C12 stream is run as well: files served by the real binary, two configurations with a client template that sets every gateway-controlled setting to something else) (a) random maps of integers (incl. int64 extremes) and strings (with ':', '#', non-ASCII, Unicode blanks inside, up to "
         "4 KiB) through the real Marshal and back through Unmarshal; (b) byte strings offered to the real parser: files built from "
         "35 line shapes (every malformed form: missing fields, unknown type, non-integer, overflow, blank/comment/CR variants, "
         "Unicode blanks, duplicates) with mixed line endings, and noise; (c) random assignments to the ~60 settings through the "
@@ -14,6 +19,8 @@ ASSUMPTIONS = ["template keys are spelled exactly as the settings table spells t
 
 
 def nontrivial(c):
+    if c.kind == "download":
+        return True
     return c.fields[0] not in ("empty", "-", "")
 
 
